@@ -39,7 +39,7 @@ def plan(tier, seed):
     chunks.append({'kind': 'reject'})
     chunks.append({'kind': 'anyparent', 'maxlen': maxlen})
     return {
-        'chunks': chunks,
+        'chunks': chunks + [{'kind': 'clipipe'}],
         'rule': 'NeGra heuristic: every hierarchy over n tokens (<= u unary insertions) x every assignment of '
                 '{HD,NK,--} to every child; rule presets: every (preset, parent category, listed child category) '
                 'of both tables x child sequences of length 1..%d with the listed child at every position and '
@@ -48,7 +48,8 @@ def plan(tier, seed):
                 % maxlen,
         'bound': ', '.join('n=%d:u<=%d' % s for s in specs) + '; %d table entries, sequences <= %d' % (len(items), maxlen),
         'exhaustive': True,
-        'assumptions': ['"listed in the head rule" = occurs in any priority list of the parent category',
+        'assumptions': ['driver differential (vt/clipipe.py): `treetools transform` with the pipelines that involve this operation, with and without --split, on a six-sentence corpus must write what the named functions give when applied by the harness in the given order',
+                        '"listed in the head rule" = occurs in any priority list of the parent category',
                         'every rule case is preceded by the same call under the other preset (forces collisions in any cache)'],
     }
 
@@ -195,6 +196,18 @@ def rule_cases(lo, hi, maxlen):
                                    'tokens': as_tokens, 'via': 'brackets'}
 
 
+def wide_rule_cases(lo, hi):
+    """Size probes beyond the bound: the listed child among 5, 6 and 9 children (first, middle, last)."""
+    for preset, parent, child, listed in rule_items()[lo:hi]:
+        for L in (5, 6, 9):
+            for pos in sorted(set((0, L // 2, L - 1))):
+                for as_tokens in (True, False):
+                    labs = [['zzz', 'qqq'][i % 2].upper() for i in range(L)]
+                    labs[pos] = child.upper()
+                    yield {'preset': preset, 'parent': parent.upper() if parent != '-' else parent, 'children': labs,
+                           'pos': pos, 'tokens': as_tokens}
+
+
 def anyparent_cases(maxlen):
     """Every parent category of both pinned tables (incl. those with an empty priority list) and an unknown
     one, over children none of which is listed: the rule does not say which child is the head, but exactly
@@ -259,6 +272,9 @@ def check_reject():
 
 
 def check_case(case):
+    if 'clipipe' in case:
+        from .. import clipipe
+        return clipipe.replay(case)
     with quiet():
         if 'negra' in case:
             return check_negra(case['negra'], case.get('order'))[0]
@@ -290,6 +306,11 @@ def edge_assignments(sh):
 
 
 def run_chunk(chunk):
+    if chunk.get('kind') == 'clipipe':
+        from .. import clipipe
+        res = Result()
+        clipipe.run_property(ID, res)
+        return res
     res = Result()
     with quiet():
         if chunk['kind'] == 'negra':
@@ -304,7 +325,7 @@ def run_chunk(chunk):
                 res.sample({'negra_mark_heads_on': model.mt_str(mt.root, mt.toks)})
         elif chunk['kind'] == 'rules':
             c = None
-            for c in rule_cases(chunk['lo'], chunk['hi'], chunk['maxlen']):
+            for c in itertools.chain(rule_cases(chunk['lo'], chunk['hi'], chunk['maxlen']), wide_rule_cases(chunk['lo'], chunk['hi'])):
                 vs = check_rule(c)
                 res.evals += 1
                 res.nontrivial += 1 if c['pos'] != 0 else 0
